@@ -45,6 +45,10 @@ def build_psd(T, tree, pfx="P"):
     kind = tree[0]
     if kind == "psd":
         return psd_leaf(T, pfx, tree[1], tree[2])
+    if kind == "upsd":
+        # the same matrix WITHOUT the PSD declaration (cholesky does not ask for it; only inv / logdet with Cholesky() do)
+        A, R = psd_leaf(T, pfx, tree[1], tree[2])
+        return ops.Dense(A.A), R
     if kind == "pdiag":
         n = tree[1]
         d = T.arr(pfx + "d", (n, ), 'float64', positive=True)
@@ -82,8 +86,8 @@ def build_psd(T, tree, pfx="P"):
 
 def pname(tree):
     k = tree[0]
-    if k == "psd":
-        return f"psd{tree[1]}{'c' if tree[2] else ''}"
+    if k in ("psd", "upsd"):
+        return f"{k}{tree[1]}{'c' if tree[2] else ''}"
     if k in ("pdiag", "pscalar", "identity"):
         return f"{k}{tree[1]}"
     if k == "kron":
@@ -91,7 +95,7 @@ def pname(tree):
     return "bd(" + ",".join(f"{pname(t)}^{m}" for t, m in zip(tree[1], tree[2])) + ")"
 
 
-EXPECTED_KIND = {"psd": "Triangular", "pdiag": "Diagonal", "pscalar": ("ScalarMul", "Product"), "identity": "Identity", "kron": "Kronecker", "blockdiag": "BlockDiag"}
+EXPECTED_KIND = {"upsd": "Triangular", "psd": "Triangular", "pdiag": "Diagonal", "pscalar": ("ScalarMul", "Product"), "identity": "Identity", "kron": "Kronecker", "blockdiag": "BlockDiag"}
 
 
 def _kind_ok(op, tree):
@@ -148,6 +152,7 @@ def case_cholesky(T, tree):
     from symx.core import Inconclusive, PathAbort
     from symx.harness import CaseTimeout
     A, R = build_psd(T, tree)
+    n_params = len(A.flatten()[0])
     try:
         L = _dec().cholesky(A)
     except (Inconclusive, PathAbort, CaseTimeout):
@@ -162,6 +167,35 @@ def case_cholesky(T, tree):
     _tri(T, "cholesky:L-lower-triangular", Ld, True)
     Lh = L.H.to_dense()
     T.eq("cholesky:(L.H) == L^H", Lh, np.conjugate(Ld).T, dtype=False)
+    # the factorisation leaves no trace on the operator: same parameters afterwards, and an operator rebuilt from transformed parameters is
+    # factorised on its own merits (c * A has the factor sqrt(c) * L: checked as L2 L2^H == c^k A for k leaves scaled by c = 4)
+    params, unflatten = A.flatten()
+    T.check("cholesky: the operator has the same parameters afterwards", len(params) == n_params, f"{n_params} parameters before, {len(params)} after")
+    if len(params) == n_params and all(hasattr(p_, "shape") for p_ in params):
+        A2 = unflatten([4.0 * p_ for p_ in params])
+        try:
+            L2d = _dec().cholesky(A2).to_dense()
+            from .common import ref_scale
+            scale = 4.0**(_scaling_degree(tree) or 0)
+            if _scaling_degree(tree) is not None:
+                T.eq("cholesky(rebuilt from 4 * parameters): L L^H == 4^k A", L2d @ np.conjugate(L2d).T, scale * expected(T, R), dtype=False)
+        except (Inconclusive, PathAbort, CaseTimeout):
+            raise
+        except Exception as e:
+            T.check("cholesky(rebuilt):!exception", False, f"{type(e).__name__}: {e}"[:300])
+
+
+def _scaling_degree(tree):
+    """degree of homogeneity of the represented matrix in a common scaling of all array parameters; None-free for the trees used"""
+    k = tree[0]
+    if k in ("psd", "upsd", "pdiag", "pscalar"):
+        return 1
+    if k == "identity":
+        return 0
+    if k == "kron":
+        return sum(_scaling_degree(t) for t in tree[1:])
+    degs = {_scaling_degree(t) for t in tree[1]}
+    return degs.pop() if len(degs) == 1 else None
 
 
 def case_plu(T, tree, structured=None):
@@ -220,6 +254,12 @@ def cases(tier, seed):
             ["blockdiag", [["psd", 2, False], ["pdiag", 1]], [2, 3]], ["blockdiag", [["psd", 1, False], ["psd", 2, True]], [1, 2]],
             ["blockdiag", [["kron", ["psd", 2, False], ["pdiag", 2]], ["psd", 2, False]], [1, 2]],
             ["kron", ["blockdiag", [["psd", 1, False], ["pdiag", 1]], [1, 2]], ["psd", 2, False]]]
+    # the matrix without the declaration (alone and inside Kronecker / BlockDiag), nested BlockDiag with multiplicities at both levels
+    chol += [["upsd", 2, False], ["upsd", 2, True], ["upsd", 3, False], ["kron", ["upsd", 2, True], ["upsd", 2, True]], ["kron", ["upsd", 2, True], ["pdiag", 2]],
+             ["blockdiag", [["upsd", 2, True], ["psd", 1, False]], [2, 1]],
+             ["blockdiag", [["blockdiag", [["psd", 2, False], ["pdiag", 1]], [1, 1]], ["psd", 1, False]], [2, 1]],
+             ["blockdiag", [["psd", 1, False], ["blockdiag", [["psd", 2, False], ["pdiag", 1]], [2, 1]]], [1, 2]],
+             ["blockdiag", [["blockdiag", [["pdiag", 1], ["psd", 1, False]], [1, 2]]], [2]]]
     if tier == "thorough":
         chol += [["psd", 3, True], ["psd", 4, False], ["kron", ["psd", 3, False], ["psd", 2, False], ["psd", 2, False]]]
     for t in chol:
@@ -229,6 +269,8 @@ def cases(tier, seed):
             (["kron", ["dense", 2, 2, F8], ["dense", 2, 2, F8]], ["Kronecker"]), (["kron", ["dense", 2, 2, F8], ["identity", 2, F8]], ["Kronecker"]),
             (["kron", ["dense", 2, 2, F8], ["dense", 3, 3, F8]], ["Kronecker"]),
             (["blockdiag", [["dense", 2, 2, F8], ["identity", 1, F8]], [2, 1]], ["BlockDiag"]), (["blockdiag", [["dense", 2, 2, F8]], [3]], ["BlockDiag"]),
+            (["blockdiag", [["blockdiag", [["dense", 2, 2, F8], ["diag", 1, F8]], [1, 1]], ["dense", 1, 1, F8]], [2, 1]], ["BlockDiag"]),
+            (["blockdiag", [["dense", 1, 1, F8], ["blockdiag", [["diag", 1, F8], ["dense", 2, 2, F8]], [2, 1]]], [1, 2]], ["BlockDiag"]),
             (["tri", 3, 1, F8], None), (["tridiag", 3, F8], None), (["product", ["dense", 2, 2, F8], ["diag", 2, F8]], None),
             (["perm", [1, 2, 0], F8], None), (["sum", ["dense", 2, 2, F8], ["identity", 2, F8]], None)]
     for t, st in plus:
